@@ -32,7 +32,9 @@ func (c *Ctx) parsedModeCells(fn *ssa.Function) []*ssa.Alloc {
 func (c *Ctx) requestedModes(fn *ssa.Function) []core.VPred {
 	var out []core.VPred
 	for _, cell := range c.parsedModeCells(fn) {
-		out = append(out, isLoadOfCell(cell))
+		ld := isLoadOfCell(cell)
+		// also inside a phase of the handler that receives the parsed mode as a parameter
+		out = append(out, func(v ssa.Value) bool { return ld(v) || ld(c.rootValue(v)) })
 	}
 	core.AllInstrs(fn, func(in ssa.Instruction) {
 		call, ok := in.(*ssa.Call)
@@ -204,7 +206,12 @@ func checkC06(c *Ctx) {
 			continue
 		}
 		modes := c.requestedModes(fn)
-		sites := c.subsUpdateSites(fn)
+		var sites []subsUpdateSite
+		if len(modes) == 1 {
+			for _, f := range c.regionFuncsSorted(fn) {
+				sites = append(sites, c.subsUpdateSites(f)...)
+			}
+		}
 		if len(modes) != 1 || len(sites) == 0 {
 			continue
 		}
@@ -221,12 +228,12 @@ func checkC06(c *Ctx) {
 				continue
 			}
 			r.Func(fk(fn))
-			gNotOwner := core.EqGuard("t.owner!="+up.Name(), core.IsFieldLoad(owner), func(v ssa.Value) bool { return core.Strip(v) == ssa.Value(up) }, false)
+			gNotOwner := core.EqGuard("t.owner!="+up.Name(), core.IsFieldLoad(owner), func(v ssa.Value) bool { return core.Strip(v) == ssa.Value(up) || c.rootValue(v) == c.rootValue(up) }, false)
 			construct := fmt.Sprintf("%s: Subs.Update(%s, ModeGiven...)", fk(fn), up.Name())
 			// the sink is the selfupdate when the same function also strips a previous owner (has OwnerChange)
 			isSelfPath := c.callsDeep(fn, ownerChange, 2)
-			okO, _ := core.GuardedBy(fn, s.call, gNotOwner, gUnset, gO)
-			okJ, _ := core.GuardedBy(fn, s.call, gNotOwner, gUnset, gJ)
+			okO, _ := core.GuardedBy(s.call.Parent(), s.call, gNotOwner, gUnset, gO)
+			okJ, _ := core.GuardedBy(s.call.Parent(), s.call, gNotOwner, gUnset, gJ)
 			if isSelfPath {
 				nSelf++
 				r.Check(okO && okJ, "C06.1-owner-cannot-drop-O-or-J", construct, c.pos(s.call),
@@ -234,7 +241,7 @@ func checkC06(c *Ctx) {
 				// non-owner cannot request O
 				gGrantO := core.BoolGuard("grant.IsOwner()", core.IsCallTo(isOwner, core.IsFieldLoad(pudGiven)), true)
 				gNoO := core.BoolGuard("!mode.IsOwner()", core.IsCallTo(isOwner, ld), false)
-				okN, _ := core.GuardedBy(fn, s.call, gGrantO, gNoO, gUnset)
+				okN, _ := core.GuardedBy(s.call.Parent(), s.call, gGrantO, gNoO, gUnset)
 				r.Check(okN, "C06.1b-non-owner-cannot-request-O", construct, c.pos(s.call),
 					"write reachable only if the requester's grant has O or the request has no O", "a subscriber whose grant lacks O can store a requested mode with O")
 			} else {
@@ -250,15 +257,15 @@ func checkC06(c *Ctx) {
 			for _, s := range sites {
 				sinks = append(sinks, s.call)
 			}
-			for _, ci := range core.CallsTo(fn, subsCreate) {
+			for _, ci := range c.regionCallsTo(fn, subsCreate) {
 				sinks = append(sinks, ci.(ssa.Instruction))
 			}
 			for _, sink := range sinks {
 				gNoO := core.BoolGuard("!mode.IsOwner()", core.IsCallTo(isOwner, ld), false)
 				ok := false
 				for _, p := range ups {
-					gActorOwner := core.EqGuard("t.owner=="+p.Name(), core.IsFieldLoad(owner), func(v ssa.Value) bool { return core.Strip(v) == ssa.Value(p) }, true)
-					if g, cnt := core.GuardedBy(fn, sink, gNoO, gActorOwner); g && cnt[0] > 0 && cnt[1] > 0 {
+					gActorOwner := core.EqGuard("t.owner=="+p.Name(), core.IsFieldLoad(owner), func(v ssa.Value) bool { return core.Strip(v) == ssa.Value(p) || c.rootValue(v) == c.rootValue(p) }, true)
+					if g, cnt := core.GuardedBy(sink.Parent(), sink, gNoO, gActorOwner); g && cnt[0] > 0 && cnt[1] > 0 {
 						ok = true
 					}
 				}
